@@ -3,6 +3,7 @@ package main
 // C17 — inbox forwarding happens iff its three conditions hold, once, unchanged.
 
 import (
+	"go/token"
 	"fmt"
 	"strings"
 
@@ -308,6 +309,94 @@ func checkC17(res *Result) {
 				res.check(tot, "C17-R4", fname(f), p.pos(ci), "every value of the property is collected", why)
 			}
 		}
+		// … every embedded value: once an element is known to hold a value (GetType() != nil),
+		// every way on to the next element passes through the append of that value — no kind of
+		// value (a Link, a Mention, …) is left out of the ownership search
+		nGT := 0
+		for _, ci := range callsIn(f) {
+			gt, ok := ci.(*ssa.Call)
+			if !ok || !gt.Common().IsInvoke() || gt.Common().Method.Name() != "GetType" {
+				continue
+			}
+			loop := loopBlocks(gt.Block())
+			H := loopHeader(loop)
+			if len(loop) == 0 || H == nil {
+				continue
+			}
+			nGT++
+			// the block entered when the value is non-nil
+			var T *ssa.BasicBlock
+			for _, b := range f.Blocks {
+				if iff, ok := lastIf(b); ok {
+					if bo, ok := iff.Cond.(*ssa.BinOp); ok && (bo.X == ssa.Value(gt) || bo.Y == ssa.Value(gt)) && (isNilConst(bo.X) || isNilConst(bo.Y)) {
+						if bo.Op == token.NEQ {
+							T = b.Succs[0]
+						} else if bo.Op == token.EQL {
+							T = b.Succs[1]
+						}
+					}
+				}
+			}
+			if T == nil {
+				res.bad("C17-R4", fname(f), p.pos(gt), "an element holding a value is recognised by GetType() != nil", "no such test")
+				continue
+			}
+			// blocks that append the value
+			app := map[*ssa.BasicBlock]bool{}
+			for lb := range loop {
+				for _, i2 := range lb.Instrs {
+					if c, ok := i2.(*ssa.Call); ok {
+						if bi, ok := c.Common().Value.(*ssa.Builtin); ok && bi.Name() == "append" {
+							for _, a := range c.Common().Args[1:] {
+								// append(t, tv): variadic → slice of a fresh array holding tv
+								hit := false
+								if sl, ok := a.(*ssa.Slice); ok {
+									if al, ok := sl.X.(*ssa.Alloc); ok {
+										for _, r := range *al.Referrers() {
+											if ia, ok := r.(*ssa.IndexAddr); ok {
+												for _, rr := range *ia.Referrers() {
+													if st, ok := rr.(*ssa.Store); ok && unwrap(st.Val) == ssa.Value(gt) {
+														hit = true
+													}
+												}
+											}
+										}
+									}
+								}
+								if hit {
+									app[lb] = true
+								}
+							}
+						}
+					}
+				}
+			}
+			// from T, can the loop header be reached without passing an appending block?
+			bad := false
+			if !app[T] {
+				seen := map[*ssa.BasicBlock]bool{T: true}
+				q := []*ssa.BasicBlock{T}
+				for len(q) > 0 && !bad {
+					b := q[0]
+					q = q[1:]
+					for _, sc := range b.Succs {
+						if sc == H || !loop[sc] {
+							if sc == H {
+								bad = true
+							}
+							continue
+						}
+						if app[sc] || seen[sc] {
+							continue
+						}
+						seen[sc] = true
+						q = append(q, sc)
+					}
+				}
+			}
+			res.check(!bad, "C17-R4", fname(f), p.pos(gt), "every embedded value of the property is collected for the ownership search, whatever its type", "a path from 'the element holds a value' goes on to the next element without appending it: values of some kind (e.g. an embedded Mention whose href this server owns) are never examined")
+		}
+		res.Count("C17-R4 embedded-value loops in getInboxForwardingValues", nGT, 4)
 	}
 	checkDepthGuard(res, p, E, "C17-R4", "sideEffectActor.hasInboxForwardingValues", "currDepth", "maxDepth", []string{"Database.Owns", "Transport.Dereference", "CommonBehavior.NewTransport"})
 	if f := p.MustFunc(res, "C17-R4", "sideEffectActor.hasInboxForwardingValues"); f != nil {
